@@ -157,6 +157,18 @@ static inline bx_string bx_string_substr(const bx_string *s, unsigned long pos, 
   r.n = (n < s->n - pos) ? n : s->n - pos;
   return r;
 }
+/* std::string::find(const std::string&, pos = 0): first position of the substring, npos if absent */
+static inline unsigned long bx_string_find(const bx_string *s, const bx_string *t)
+{
+  if (t->n > s->n) return (unsigned long)-1;
+  for (unsigned long i = 0; i + t->n <= s->n; i++) {
+    _Bool ok = 1;
+    for (unsigned long j = 0; j < t->n; j++)
+      if (s->s[i + j] != t->s[j]) { ok = 0; break; }
+    if (ok) return i;
+  }
+  return (unsigned long)-1;
+}
 static inline _Bool bx_string_eq(const bx_string *a, const bx_string *b)
 {
   if (a->n != b->n) return 0;
